@@ -154,7 +154,7 @@ pub fn build(shape: usize, consolidate: bool) -> World {
 /// two-node operations
 pub const OPS2: usize = 9;
 /// one-node operations
-pub const OPS1: usize = 13;
+pub const OPS1: usize = 17;
 
 pub fn op2_name(op: usize) -> &'static str {
     match op {
@@ -206,7 +206,11 @@ pub fn op1_name(op: usize) -> &'static str {
         9 => "clone_with_prefixes",
         10 => "create_missing_prefixes",
         11 => "deduplicate_namespaces",
-        _ => "set_text",
+        12 => "set_text",
+        13 => "comment_mut.set",
+        14 => "processing_instruction_mut.set_data",
+        15 => "text_content_mut.set",
+        _ => "parse",
     }
 }
 
@@ -243,12 +247,43 @@ pub fn apply1(w: &mut World, op: usize, a: Node) -> Result<Vec<Node>, Error> {
             w.xot.deduplicate_namespaces(a);
             Ok(vec![])
         }
-        _ => {
+        12 => {
             let s = payload("nt");
             if let Some(t) = w.xot.text_mut(a) {
                 t.set(s);
             }
             Ok(vec![])
+        }
+        13 => {
+            let s = payload("nc");
+            if let Some(c) = w.xot.comment_mut(a) {
+                c.set(s);
+            }
+            Ok(vec![])
+        }
+        14 => {
+            let s = payload("np");
+            if let Some(pi) = w.xot.processing_instruction_mut(a) {
+                pi.set_data(Some(s));
+            }
+            Ok(vec![])
+        }
+        15 => {
+            let s = payload("nt");
+            if let Some(t) = w.xot.text_content_mut(a) {
+                t.set(s);
+            }
+            Ok(vec![])
+        }
+        _ => {
+            // parsing a further document into the same store (the node argument is not used)
+            let mut src = String::from("<a p='");
+            src.push_str(&payload("nv"));
+            src.push_str("'>x<b/>y</a>");
+            match w.xot.parse(&src) {
+                Ok(d) => Ok(vec![d]),
+                Err(_) => Ok(vec![]),
+            }
         }
     }
 }
